@@ -108,7 +108,11 @@ func mergeS(c *engine.Ctx, rep *engine.Report, scs []*engine.SScenario, plan eng
 	ht, _ := rep.Coverage["transitions"].(int)
 	hsamples, _ := rep.Coverage["samples"].([]any)
 	hb, _ := rep.Coverage["time_budget_hit"].(bool)
+	prevEx, hadEx := rep.Coverage["exhaustive"].(bool)
 	engine.RunSchedules(c, scs, plan, rep)
+	if hadEx && !prevEx {
+		rep.Coverage["exhaustive"] = false
+	}
 	rep.Coverage["states"] = rep.Coverage["states"].(int) + hs
 	rep.Coverage["transitions"] = rep.Coverage["transitions"].(int) + ht
 	rep.Coverage["traces_validated_against_impl"] = rep.Coverage["traces_validated_against_impl"].(int) + ht
